@@ -29,6 +29,10 @@ type Wire struct {
 	// Deadlines: honour SetReadDeadline (receiver) and SetWriteDeadline (sender) as net.Conn does
 	Deadlines bool
 	rdl, wdl  time.Time
+	// PauseAt > 0: once PauseAt bytes have been delivered the rest stays in flight (reads block, or time out
+	// under a deadline) until Resume is called
+	PauseAt int
+	resumed bool
 
 	raw       []byte
 	out       []byte
@@ -135,10 +139,11 @@ func (w *Wire) read(p []byte) (int, error) {
 		if w.Deadlines && !w.rdl.IsZero() && !time.Now().Before(w.rdl) {
 			return 0, os.ErrDeadlineExceeded
 		}
-		if len(w.out) > 0 {
+		paused := w.PauseAt > 0 && !w.resumed && len(w.Delivered) >= w.PauseAt
+		if len(w.out) > 0 && !paused {
 			break
 		}
-		if w.wclosed {
+		if w.wclosed && !paused {
 			return 0, io.EOF
 		}
 		w.waiting = true
@@ -157,6 +162,9 @@ func (w *Wire) read(p []byte) (int, error) {
 	if w.Cut >= 0 && len(w.Delivered)+n > w.Cut {
 		n = w.Cut - len(w.Delivered)
 	}
+	if w.PauseAt > 0 && !w.resumed && len(w.Delivered)+n > w.PauseAt {
+		n = w.PauseAt - len(w.Delivered)
+	}
 	copy(p, w.out[:n])
 	w.Delivered = append(w.Delivered, w.out[:n]...)
 	w.out = w.out[n:]
@@ -165,6 +173,21 @@ func (w *Wire) read(p []byte) (int, error) {
 		return n, io.EOF
 	}
 	return n, nil
+}
+
+// Resume lets the bytes held back by PauseAt through.
+func (w *Wire) Resume() {
+	w.mu.Lock()
+	w.resumed = true
+	w.cond.Broadcast()
+	w.mu.Unlock()
+}
+
+// DeliveredLen is the number of bytes the receiver has read so far.
+func (w *Wire) DeliveredLen() int {
+	w.mu.Lock()
+	defer w.mu.Unlock()
+	return len(w.Delivered)
 }
 
 func (w *Wire) setDeadline(read bool, t time.Time) {
